@@ -201,6 +201,10 @@ theorem sessionID_pattern_accepts_prefix :
       [60,115,101,115,115,105,111,110,45,105,100,62,52,50,60,47,115,101,115,115,105,111,110,45,105,
        100,62] 1 = some [52,50] := by decide +kernel
 
+/-- obligation on the regenerated constant: a successful `FindSubmatch` of the one-group
+session-id pattern (length 2) passes the length test in `processServerCapabilities` -/
+theorem sessionID_match_length : sidMatchLenOK = true := by decide
+
 /-- the three extracted patterns and the scanner agree on the sample hello (engine in the kernel) -/
 theorem engine_scanner_agree_sample :
     parseHello (render sampleLayout ++ Gen.Netconf.v1Dot0Delim ++ [10])
